@@ -610,25 +610,43 @@ func stressServer(a args) string {
 		// a session goes down (Cease -> uninit -> dispose -> sender teardown) while its update sender is busy flushing to a
 		// peer that reads slowly, then comes up again (new FSM, new RIBs, new sender) and goes down once more; the other
 		// sessions keep receiving UPDATEs; readers dump the Loc-RIB and the RIBs of the sessions that stay up
-		for k := range e.peers {
-			e.setDelay(k, 300*time.Microsecond)
-		}
-		var phase atomic.Int64
-		workers(a, func(r *hx.RNG, w int) {
-			switch x := r.Intn(20); {
-			case x < 13:
-				e.injectT(r, r.Intn(2), 5*time.Second) // sessions 0 and 1 stay up
-			case x < 14 && w == 0:
-				switch phase.Add(1) {
-				case 3, 9:
+		e.setDelay(2, time.Millisecond) // session 2 is the slow reader whose sender is always busy
+		var injected atomic.Int64
+		stop := make(chan struct{})
+		var ctl sync.WaitGroup
+		ctl.Add(1)
+		go func() { // controller: every ~30 received UPDATEs session 2 goes down and comes up again
+			defer ctl.Done()
+			next := int64(30)
+			up := true
+			for {
+				select {
+				case <-stop:
+					return
+				default:
+				}
+				if injected.Load() < next {
+					time.Sleep(500 * time.Microsecond)
+					continue
+				}
+				next += 30
+				if up {
 					e.b.DisposePeer(e.v, e.peers[2])
-				case 6:
-					c := peerConfig(e.v, 2, 0)
+				} else {
 					con := newSinkConn()
-					con.delay.Store(int64(300 * time.Microsecond))
-					if err := server.VerifC25AddEstablishedPeer(e.b, c, con); err != nil {
+					con.delay.Store(int64(time.Millisecond))
+					if err := server.VerifC25AddEstablishedPeer(e.b, peerConfig(e.v, 2, 0), con); err != nil {
 						failed.Add(1)
 					}
+				}
+				up = !up
+			}
+		}()
+		workers(a, func(r *hx.RNG, w int) {
+			switch x := r.Intn(20); {
+			case x < 14:
+				if e.injectT(r, r.Intn(2), 5*time.Second) { // sessions 0 and 1 stay up
+					injected.Add(1)
 				}
 			case x < 17:
 				readAll(e.lr.Dump())
@@ -638,6 +656,8 @@ func stressServer(a args) string {
 				}
 			}
 		})
+		close(stop)
+		ctl.Wait()
 	case "control":
 		// session control against traffic: metrics, RIB dumps, import policy, and finally disposal of every peer
 		var disposed [3]sync.Once
